@@ -229,111 +229,28 @@ Definition bytes_roundtrip (c : case) : bool :=
   | _, _ => false
   end.
 
-(* the last atom a tree encodes, if it is a byte string (trailing byte array of the payload) *)
-Fixpoint last_bytes (v : value) : option bytes :=
-  match v with
-  | VAtom (ABytes b) => Some b
-  | VPair x VUnit => last_bytes x
-  | VPair _ y => last_bytes y
-  | VFlag _ x => last_bytes x
-  | _ => None
-  end.
-
-(* the primitive that writes the last field at this context (version tests resolved; under an optional the
-   layout alone cannot tell, see last_prim_v) *)
-Fixpoint last_prim (l : L) (c : ctx) : option lprim :=
-  match l with
-  | Layout.LPrim _ p => Some p
-  | Layout.LSeq a b => match resolve LP b c with Layout.LEnd => last_prim a c | _ => last_prim b c end
-  | Layout.LVer g a b => if eval_guard g c then last_prim a c else last_prim b c
-  | _ => None
-  end.
-
-(* the same, following the branches the value took *)
-Fixpoint last_prim_v (l : L) (c : ctx) (v : value) : option lprim :=
-  match l, v with
-  | Layout.LPrim _ p, _ => Some p
-  | Layout.LSeq a b, VPair x y => match resolve LP b c with Layout.LEnd => last_prim_v a c x | _ => last_prim_v b c y end
-  | Layout.LVer g a b, _ => if eval_guard g c then last_prim_v a c v else last_prim_v b c v
-  | Layout.LOpt _ a b, VFlag fl x => if fl then last_prim_v a c x else last_prim_v b c x
-  | _, _ => None
-  end.
-
-Definition is_lenpref_bytes (p : option lprim) : bool :=
-  match p with Some (PBytes _) | Some PBytes17 => true | _ => false end.
-
-Fixpoint has_long17 (l : L) (c : ctx) (v : value) : bool :=
-  match l, v with
-  | Layout.LPrim _ PBytes17, VAtom (ABytes b) => 256 <=? lenZ b
-  | Layout.LSeq a b, VPair x y => has_long17 a c x || has_long17 b c y
-  | Layout.LVer g a b, _ => if eval_guard g c then has_long17 a c v else has_long17 b c v
-  | Layout.LOpt _ a b, VFlag fl x => if fl then has_long17 a c x else has_long17 b c x
-  | _, _ => false
-  end.
-
-(* the layout a repaired tree would have: 1.7 arrays in the vanilla two-byte format *)
-Fixpoint to_spec (l : L) : L :=
-  match l with
-  | Layout.LPrim f p => @Layout.LPrim LP f (match p with PBytes17 => PBytes17V | q => q end)
-  | Layout.LSeq a b => @Layout.LSeq LP (to_spec a) (to_spec b)
-  | Layout.LVer g a b => @Layout.LVer LP g (to_spec a) (to_spec b)
-  | Layout.LOpt f a b => @Layout.LOpt LP f (to_spec a) (to_spec b)
-  | Layout.LRep f o a => @Layout.LRep LP f o (to_spec a)
-  | _ => l
-  end.
-
-(* Known findings (known_findings.jsonl, property C04):
-   1  Handshake.Port is written as int16 and read back signed: ports >= 32768 decode to port - 65536
-   2  a packet whose last field is an EMPTY length-prefixed byte array fails to decode with io.EOF
-      (util.ReadBytesLen / ReadBytes17 use rd.Read, which reports EOF for a zero-length read at the end)
-   3  1.7 byte arrays are written with a one-byte length: arrays of 256 bytes or more do not round-trip
-   4  TabCompleteResponse.Decode (1.13+) keeps the previous offer's tooltip for an offer without one:
-      the re-encoding is longer than the original (type outside the fragment: judged on the bytes) *)
+(* All four findings once recorded for C04 are repaired in the code (known_findings.jsonl: fixed) - Handshake port
+   sign 84c239a, empty trailing byte array 4d8a5a4, 1.7 one-byte array length 6e760d1, tab-complete tooltip leak
+   a6ee6ec.  The judge knows no exception any more: a recurrence of any of them is a violation. *)
 Definition judge (c : case) : verdict :=
   let ctx := mkctx (cv c) (cb c) in
   match find_entry (tname c) packets with
   | None => VMismatch                       (* a registered type the translator did not see *)
-  | Some (Opaque _ _ _) =>
-      if bytes_roundtrip c then VOk
-      else if String.eqb (tname c) "packet.TabCompleteResponse" && (393 <=? cv c) then
-        match dec c, bytes2 c with
-        | DecOk 0%N, Some b2 => if Nat.ltb (List.length (bytes1 c)) (List.length b2) then VKnown 4 else VViolation
-        | _, _ => VViolation
-        end
-      else VViolation
+  | Some (Opaque _ _ _) => if bytes_roundtrip c then VOk else VViolation
   | Some (Fragment _ enc decl _) =>
       match tree enc ctx [([], env1 c)] with
       | None => VMismatch                   (* dump does not fit the layout: translator / harness disagree *)
       | Some t1 =>
-          let enc_by (e : L) := match enc_L LP e ctx t1 with Ok b => beq_bytes b (bytes1 c) | Err _ => false end in
-          let dec_by (d : L) := match dec_L LP d ctx (bytes1 c) with
-                                | Ok (t, []) => value_eqb t t1
-                                | _ => false end in
-          (* the code as it is, or as it would be with 1.7 arrays repaired *)
-          let as_spec := negb (enc_by enc) && enc_by (to_spec enc) in
-          let model_enc := enc_by enc || as_spec in
-          let model_dec := if as_spec then dec_by (to_spec decl) else dec_by decl in
+          let model_enc := match enc_L LP enc ctx t1 with Ok b => beq_bytes b (bytes1 c) | Err _ => false end in
+          let model_dec := match dec_L LP decl ctx (bytes1 c) with
+                           | Ok (t, []) => value_eqb t t1
+                           | _ => false end in
           let values_same := match tree decl ctx [([], env2 c)] with
                              | Some t2 => value_eqb t2 t1
                              | None => false end in
           if bytes_roundtrip c && values_same then
             (if model_enc && model_dec then VOk else VMismatch)
           else if negb model_enc then VMismatch      (* cannot even explain the encoding: model problem first *)
-          else
-            (* finding 1 *)
-            if String.eqb (tname c) "packet.Handshake" && bytes_roundtrip c then
-              match lookup [([], env1 c)] ["Port"%string], lookup [([], env2 c)] ["Port"%string] with
-              | Some (FZ p1), Some (FZ p2) =>
-                  if (32768 <=? p1) && (p1 <=? 65535) && (p2 =? p1 - 65536) then VKnown 1 else VViolation
-              | _, _ => VViolation
-              end
-            (* finding 3 *)
-            else if has_long17 enc ctx t1 then
-              match dec c with DecOk 0%N => VViolation | _ => VKnown 3 end
-            (* finding 2 *)
-            else match dec c, last_bytes t1 with
-                 | DecEOF _, Some [] => if is_lenpref_bytes (last_prim_v decl ctx t1) && model_dec then VKnown 2 else VViolation
-                 | _, _ => VViolation
-                 end
+          else VViolation
       end
   end.
